@@ -602,13 +602,15 @@ def rule_last_nested_guarded(fb, R):
                 continue
             ok = _guarded_has_nested(fn, n['id'], root)
             if not ok:
-                # X = std::move(Y) dominating the call, itself under has_nested(Y)
+                # X = std::move(Y) dominating the call: the test may have been made on Y before the contents moved to X
                 for m in fn.all_nodes():
                     lhs, rhs = _assign_from(fn, m)
                     if lhs == root and rhs is not None and fn.elem_dominates(_elem(fn, m['id']), _elem(fn, n['id'])):
                         src = fn.root_var(rhs)
-                        if src is not None and src != root and _guarded_has_nested(fn, m['id'], src) and not _reassigned_between(fn, m, n, root):
-                            ok = True
+                        if src is not None and src != root and not _reassigned_between(fn, m, n, root):
+                            key = '%s<-%s' % (key, src[-1])
+                            ok = _guarded_has_nested(fn, m['id'], src)
+                            break
             R.check(ok, 'R2-last-nested-needs-nested', key, fn.loc(n['id']),
                     'get_last_nested() in %s is not guarded by has_nested_buffers() on the same buffer (precondition; null dereference in '
                     'release builds, or the wrong buffer is handed out first)' % fn.q)
@@ -1415,7 +1417,7 @@ def _case_name(fn, blk):
 
 # ================================================================================================ driver
 
-def all_rules(fb, R):
+def all_rules(fb, R, files=DECODER_FILES, pbf_files=PBF_FILES):
     rule_producers(fb, R)
     types = rule_pool_tasks(fb, R)
     rule_push_precedes_work(fb, R, types)
@@ -1427,11 +1429,11 @@ def all_rules(fb, R):
     rule_end_marker(fb, R)
     rule_nested_buffers(fb, R)
     rule_parser_flush(fb, R)
-    rule_entity_mask(fb, R)
+    rule_entity_mask(fb, R, files)
     rule_xml_builders(fb, R)
-    rule_commit(fb, R)
-    rule_pbf_fields(fb, R)
-    rule_read_meta(fb, R)
+    rule_commit(fb, R, files)
+    rule_pbf_fields(fb, R, pbf_files)
+    rule_read_meta(fb, R, files)
 
 
 def run(ctx):
@@ -1440,4 +1442,57 @@ def run(ctx):
     for cfg in configs:
         fb = ctx.facts(['io_read'], cfg)
         all_rules(fb, R)
+        # FIFO monitor: the C19 Queue rules on the explicit instantiations (Queue<future<Buffer>>, Queue<future<string>>, ...)
         c19.queue_rules(ctx.facts(['thread'], cfg), R)
+    # floors: instances confirmed by reading the tree
+    R.expect('W1-pool-task-never-enqueues', 1)               # PBFDataBlobDecoder
+    R.expect('W2-queue-producer-role', 6)                    # Parser::send_to_output_queue x2, Parser::parse x2, run_in_thread x2
+    R.expect('W2-thread-enqueues-only-its-queue', 5)         # 2 queues, 2 producing entries, consumer side
+    R.expect('W3-one-parser-thread', 1)                      # Reader constructor
+    R.expect('O1-submit-future-enqueued-directly', 1)        # PBFParser::parse_data_blobs
+    R.expect('O1-one-enqueue-per-blob', 1)
+    R.expect('R1-back-buffers-drained-before-pop', 1)
+    R.expect('R2-last-nested-needs-nested', 3)               # Reader::read x2 (back branch, after pop), flush_nested_buffer
+    R.expect('R2-whole-buffer-only-without-nested', 1)
+    R.expect('R3-popped-nested-buffer-stashed', 1)
+    R.expect('R4-end-of-data-marks-eof', 1)
+    R.expect('R4-pop-only-in-status-okay', 1)
+    R.expect('R5-wrapper-pop-returns-future-value', 1)
+    R.expect('R6-end-marker-is-invalid-buffer', 2)           # at_end_of_data(Buffer), Buffer::operator bool
+    R.expect('I1-iterator-refills-only-at-buffer-end', 1)
+    R.expect('I1-iterator-skips-only-empty-buffers', 1)
+    R.expect('B1-last-nested-walks-to-tail', 1)
+    R.expect('B2-grow-internal-chains-older', 1)
+    R.expect('B3-nested-buffer-never-empty', 1)              # Buffer::reserve_space
+    R.expect('B4-move-keeps-nested-chain', 3)                # move ctor, move assignment, swap
+    R.expect('F1-taken-nested-buffer-is-sent', 1)            # flush_nested_buffer
+    R.expect('F2-run-flushes-final-buffer', 3)               # XML, O5m, OPL
+    R.expect('F3-final-flush-sends-whole-buffer', 1)
+    R.expect('F4-swapped-out-buffer-is-sent', 1)             # maybe_new_buffer
+    R.expect('M1-object-creation-guarded-by-entity-mask', 16)   # PBF 5, o5m 3, XML 4, OPL 4
+    R.expect('M2-pbf-field-consumed-once', 15)               # every protozero message loop of the PBF reader
+    R.expect('M3-xml-builder-used-under-own-mask', 12)       # data_level_element 4, start_element 7, end_element 1
+    R.expect('M4-read-meta-guards-only-metadata', 4)         # decode_node/way/relation Info, dense selection
+    R.expect('M5-created-object-committed', 16)              # 12 local builders + 4 XML builder members
+    R.expect('Q1-access-under-lock', 8)
+    R.expect('Q2-insert-notifies-consumers', 1)
+    R.expect('Q6-front-before-pop', 3)
+    R.expect('Q7-push-inserts', 3)
+
+
+POSITIVE = ('c05_reader.cpp',)
+
+
+def _selftest(fb, R):
+    all_rules(fb, R, files=POSITIVE, pbf_files=POSITIVE)
+
+
+SELFTESTS = [(r, 'c05_reader.cpp', _selftest) for r in (
+    'W1-pool-task-never-enqueues', 'W2-queue-producer-role', 'W2-thread-enqueues-only-its-queue', 'W3-one-parser-thread',
+    'O1-submit-future-enqueued-directly', 'O1-one-enqueue-per-blob', 'R1-back-buffers-drained-before-pop', 'R2-last-nested-needs-nested',
+    'R2-whole-buffer-only-without-nested', 'R3-popped-nested-buffer-stashed', 'R4-end-of-data-marks-eof', 'R4-pop-only-in-status-okay',
+    'R5-wrapper-pop-returns-future-value', 'R6-end-marker-is-invalid-buffer', 'I1-iterator-refills-only-at-buffer-end',
+    'I1-iterator-skips-only-empty-buffers', 'B1-last-nested-walks-to-tail', 'B2-grow-internal-chains-older', 'B3-nested-buffer-never-empty',
+    'B4-move-keeps-nested-chain', 'F1-taken-nested-buffer-is-sent', 'F2-run-flushes-final-buffer', 'F3-final-flush-sends-whole-buffer',
+    'F4-swapped-out-buffer-is-sent', 'M1-object-creation-guarded-by-entity-mask', 'M2-pbf-field-consumed-once',
+    'M3-xml-builder-used-under-own-mask', 'M4-read-meta-guards-only-metadata', 'M5-created-object-committed')]
